@@ -258,7 +258,10 @@ class Co:
                 self.call(self.sch, N + 'Scheduler', 'yield', [])
                 return None
             if k == 'join':
-                return bool(self.call(self.sch, N + 'Scheduler', 'join', [self.names[op[1]]]))
+                ok = bool(self.call(self.sch, N + 'Scheduler', 'join', [self.names[op[1]]]))
+                if ok and op[1] not in self.finished:
+                    self.problem = self.problem or 'join(%s) returns success to %s although %s has not finished' % (op[1], name, op[1])
+                return ok
             if k == 'cancel':
                 self.call(self.sch, N + 'Scheduler', 'cancel', [self.names[op[1]]])
                 return None
@@ -332,6 +335,9 @@ def scenarios(full):
         for order in perms(['W', 'P1', 'P2', 'P3']):
             out.append(({'c': ('cond', logic)}, [(n, base[n]) for n in order]))
         out.append(({'c': ('cond', logic)}, [('W', base['W']), ('K', [('cancel', 'W')]), ('P1', base['P1']), ('P2', base['P2'])]))
+        # a condition named twice is one condition
+        out.append(({'c': ('cond', logic)}, [('W', [('cadd', 'c', 1), ('cadd', 'c', 2), ('cadd', 'c', 1), ('cwait', 'c')]), ('P1', base['P1']), ('P2', base['P2'])]))
+        out.append(({'c': ('cond', logic)}, [('W', [('cadd', 'c', 2), ('cadd', 'c', 2), ('cwait', 'c')]), ('P2', base['P2']), ('P1', base['P1'])]))
     # join
     base = {'T': [Y, Y], 'J': [('join', 'T')], 'J2': [('join', 'T')], 'Q': [('join', 'J')]}
     for order in perms(['T', 'J', 'J2', 'Q']):
@@ -339,6 +345,13 @@ def scenarios(full):
             out.append(({}, [(n, base[n]) for n in order]))
     out.append(({}, [('T', [('recv', 'ch')]), ('J', [('join', 'T')]), ('K', [Y, ('cancel', 'J')])]) if False else ({'ch': ('chan',)}, [('T', [('recv', 'ch')]), ('J', [('join', 'T')]), ('K', [Y, ('cancel', 'J')])]))
     out.append(({'ch': ('chan',)}, [('T', [('recv', 'ch')]), ('J', [('join', 'T')]), ('K', [Y, ('cancel', 'T')])]))
+    # a second life: what a primitive remembers from before the clean-up (a token of a routine that no longer exists) must not name a routine of the second life
+    for first in ([('W', [('bwait', 'b')])], [('W', [('bwait', 'b')]), ('W2', [('bwait', 'b')])]):
+        for order in (['J', 'T', 'Po'], ['T', 'J', 'Po'], ['Po', 'J', 'T']):
+            second = {'J': [('join', 'T')], 'T': [Y, Y, Y, Y], 'Po': [Y, ('bpost', 'b')]}
+            out.append(({'b': ('bcast',)}, first, [(n, second[n]) for n in order]))
+    out.append(({'ch': ('chan',), 'm': ('mutex',)}, [('H', [('lock', 'm'), ('recv', 'ch')]), ('W', [('lock', 'm')])],
+                [('A', [('lock', 'm'), Y, ('unlock', 'm')]), ('B', [('lock', 'm'), ('unlock', 'm')])]))
     return out
 
 
@@ -346,7 +359,8 @@ def describe(sc):
     def op(o):
         return o[0] + ('(%s)' % ','.join(str(x) for x in o[1:]) if len(o) > 1 else '')
     prims = ', '.join('%s=%s%s' % (k, v[0], '(%s)' % v[1] if len(v) > 1 else '') for k, v in sc[0].items())
-    return '[%s] %s' % (prims, '; '.join('%s: %s' % (n, ' '.join(op(o) for o in s_)) for n, s_ in sc[1]))
+    return '[%s] %s' % (prims, '; '.join('%s: %s' % (n, ' '.join(op(o) for o in s_)) for n, s_ in sc[1])) + \
+        (' || after cleanup(): ' + '; '.join('%s: %s' % (n, ' '.join(op(o) for o in s_)) for n, s_ in sc[2]) if len(sc) > 2 else '')
 
 
 def run_scenario(prog, sc):
@@ -367,7 +381,7 @@ def run_scenario(prog, sc):
             prims[name] = co.make(N + 'Broadcast', [ref])
         elif spec[0] == 'cond':
             prims[name] = co.make(N + 'Condition<int>', [ref, spec[1]])
-            prims[name]['conds_'] = []          # the set is held as a sequence of distinct values
+            prims[name]['conds_'] = []          # a set is held as a sequence of distinct values; a sequence container is a sequence anyway
     pname = {id(v): k for k, v in prims.items()}
     owed = {}           # routine -> reason it must have been resumed by the next idle point
     cond_ref = {k: set() for k, v in sc[0].items() if v[0] == 'cond'}
@@ -425,6 +439,26 @@ def run_scenario(prog, sc):
         why = inspect(co, sc, prims, owed, finished)
         if why:
             return why
+        if len(sc) > 2:
+            # a second life of the same scheduler: clean up, then new routines on the primitives that are still around
+            first = [n for n, s_ in sc[1]]
+            co.call(co.sch, N + 'Scheduler', 'cleanup', [])
+            if it.faults:
+                return 'clean-up between two lives: %s' % it.faults[0]
+            alive = [n for n in first if n not in finished]
+            if alive:
+                return 'routine(s) %s have not terminated after the clean-up of the scheduler' % alive
+            co.blocked.clear()
+            owed.clear()
+            for name, script in sc[2]:
+                script2 = [tuple(prims.get(x, x) if isinstance(x, str) and x in prims else x for x in o) for o in script]
+                co.create(name, script2)
+            co.idle()
+            if it.faults:
+                return 'second life: %s' % it.faults[0]
+            why = co.problem or inspect(co, sc, prims, owed, finished)
+            if why:
+                return 'second life of the scheduler: %s' % why
         cancelled = [o[1] for n, s_ in sc[1] for o in s_ if o[0] == 'cancel' and any(t[0] == n and t[1][0] == 'cancel' and t[1][1] == o[1] for t in co.trace)]
         if co.problem:
             return co.problem
